@@ -1,11 +1,15 @@
 import CG.Driver.Codec
 import CG.Driver.HGraph
 import CG.Driver.HName
+import CG.Driver.GraphCodec
 
 /-- stateless handlers: first token of a line selects the handler -/
 def handlers : List (String × (List String → String)) := [
   ("echo", fun args => " ".intercalate args),
-  ("name", CG.Driver.Name.handle)
+  ("name", CG.Driver.Name.handle),
+  ("gecho", fun args => match args with
+    | [t] => (match CG.Driver.GraphCodec.decGraph? t with | some g => CG.Driver.GraphCodec.encGraph g | none => "bad-op")
+    | _ => "bad-op")
 ]
 
 structure DState where
